@@ -96,3 +96,20 @@ Example cache_example :
   let oracle := fun k : N => if N.eqb k 5 then None else Some (k * 2) in
   fst (run_seq N.eqb oracle [(1, 100)] [1; 2; 5; 2]) = [Some 100; Some 4; None; Some 4].
 Proof. reflexivity. Qed.
+
+(* With a context-independent oracle the implementation's sequential behaviour is the one the theorem speaks about *)
+Theorem run_dep_is_run_seq :
+  forall (key val ctx : Type) (key_eqb : key -> key -> bool) (oracle2 : ctx -> key -> option val) (p0 : ctx),
+    (forall p q k, oracle2 p k = oracle2 q k) ->
+    forall ops c, run_dep key_eqb oracle2 c ops = run_seq key_eqb (oracle2 p0) c (map snd ops).
+Proof. exact Cache.run_dep_indep. Qed.
+Print Assumptions run_dep_is_run_seq.
+
+(* ... and the hypothesis matters: when only some calling contexts can resolve a name (a type of the analysed module
+   that the engine's importer cannot import), a warm cache masks the error a lone call reports.
+   This is the known finding c08-typecache-masks-unresolvable-fqn. *)
+Example lone_equivalence_refuted_for_context_dependent_oracle :
+  let oracle2 := fun (p : bool) (k : N) => if p then Some 1 else None in
+  fst (run_dep N.eqb oracle2 [] [(true, 7); (false, 7)]) = [Some 1; Some 1]
+  /\ lone N.eqb oracle2 [] (false, 7) = None.
+Proof. split; reflexivity. Qed.
